@@ -603,6 +603,11 @@ impl World {
             }
             (start, union, cl.nodes)
         };
+        // which nodes were already invalid when the round began
+        let invalid_at_start: Vec<bool> = {
+            let mut ev = Eval::new(&self.model, &env);
+            (0..self.model.nodes.len()).map(|n| ev.node(n).is_none()).collect()
+        };
 
         let ev_start = self.sh.events.borrow().len();
         let stats_before = self.st().stats();
@@ -954,7 +959,13 @@ impl World {
                         };
                         for (i, inp) in ins.iter().take(nin).enumerate() {
                             match refs[*inp] {
-                                None => problems.push(("C03", format!("n{n} ran in round {k} although its input n{inp} is invalid"))),
+                                // (an input invalidated later in this very round may legitimately have
+                                // fed a computation before that; its own stale runs are judged above)
+                                None => {
+                                    if invalid_at_start[*inp] {
+                                        problems.push(("C03", format!("n{n} ran in round {k} although its input n{inp} was already invalid")));
+                                    }
+                                }
                                 Some(v) => {
                                     if comparable && args.get(i) != Some(&v) {
                                         problems.push(("C02", format!(
@@ -1026,7 +1037,13 @@ impl World {
                 },
             };
             let Some(xs) = expected_inputs else {
-                problems.push(("C03", format!("fold {} ran in round {k} although one of its inputs is invalid", key.short())));
+                let was_invalid = match key {
+                    NodeKey::Top(n) => self.model.nodes[*n].kind.inputs().iter().any(|i| invalid_at_start[*i]),
+                    NodeKey::Dyn(_) => false,
+                };
+                if was_invalid {
+                    problems.push(("C03", format!("fold {} ran in round {k} although one of its inputs was already invalid", key.short())));
+                }
                 continue;
             };
             if steps.len() != xs.len() {
